@@ -88,6 +88,20 @@ def enumerate_cases(tier):
     for txt in ('w\t', 'v \t ', 'u\x0c', '\t'):
         yield {'kind': 'doc', 't': ['cat', [['ann', ['tok', 'COMMENT_SINGLE'], ['t', txt]], ['hard'], ['t', txt], ['t', ' '], ['hard'], ['t', 'end' + txt]]], 'w': 20,
                'style': '@dark', 'mode': 'true'}
+    # token > non-token > token (> non-token > token): the enclosing token's style comes back after the inner token ends,
+    # through any number of non-token annotations in between
+    toks = ['NUMBER_INT', 'LITERAL_STRING', 'COMMENT_SINGLE', 'NAME_FUNCTION', 'STRING_ESCAPE']
+    for ai, A in enumerate(toks):
+        for bi, B in enumerate(toks):
+            if A == B:
+                continue
+            for ki, k in enumerate(RAW_ANNS):
+                if tier == 'quick' and (ai + bi + ki) % 3:
+                    continue
+                inner = ['ann', ['raw', k], ['cat', [['t', 'n'], ['ann', ['tok', B], ['t', 'b']], ['t', 'm']]]]
+                yield {'kind': 'doc', 't': ['ann', ['tok', A], ['cat', [['t', 'a'], inner, ['t', 'c']]]], 'w': 20, 'style': ('@dark', 'default', 'murphy')[ki % 3], 'mode': 'true'}
+                deeper = ['ann', ['raw', k], ['cat', [['ann', ['tok', B], ['cat', [['t', 'b'], ['ann', 0, ['ann', ['tok', A], ['t', 'd']]], ['t', 'e']]]], ['hard'], ['t', 'm']]]]
+                yield {'kind': 'doc', 't': ['ann', ['tok', A], ['cat', [['t', 'a'], deeper, ['t', 'c']]]], 'w': 20, 'style': ('@dark', 'default', 'murphy')[ki % 3], 'mode': 'true'}
     # nested annotations, D14 witness
     d14 = ['ann', ['tok', 'NUMBER_INT'], ['cat', [['t', 'a'], ['ann', 0, ['t', 'b']], ['t', 'c']]]]
     for sname in names:
